@@ -56,8 +56,8 @@ def is_safety(ob):
 
 def repo_rev():
     try:
-        h = subprocess.check_output(['git', '-C', X.REPO, 'rev-parse', '--short', 'HEAD']).decode().strip()
-        d = subprocess.check_output(['git', '-C', X.REPO, 'status', '--porcelain', '--', 'amgcl', 'lib']).decode().strip()
+        h = subprocess.check_output(['git', '-C', X.REPO, 'rev-parse', '--short', 'HEAD'], stderr=subprocess.DEVNULL).decode().strip()
+        d = subprocess.check_output(['git', '-C', X.REPO, 'status', '--porcelain', '--', 'amgcl', 'lib'], stderr=subprocess.DEVNULL).decode().strip()
         return h + ('+dirty' if d else '')
     except Exception:
         return 'unknown'
@@ -169,7 +169,8 @@ def run_property(pid, tier, seed, only_units=None, quiet=False):
                 continue
             viol.append((r, f))
 
-    os.makedirs(os.path.join(VERIF, 'replays'), exist_ok=True)
+    REPLAYS = os.path.join(VERIF, 'replays') if os.path.realpath(X.REPO) == '/repo' else os.path.join(D.BUILD, 'replays_scratch')
+    os.makedirs(REPLAYS, exist_ok=True)
     kf = [k for k in known_findings() if k.get('property') == pid and k.get('status', 'open') == 'open']
     printed = []
     nviol = 0
@@ -182,7 +183,7 @@ def run_property(pid, tier, seed, only_units=None, quiet=False):
             continue
         seen.add(key)
         hid = hashlib.sha1(repr(key).encode()).hexdigest()[:10]
-        rp = os.path.join(VERIF, 'replays', '%s_%s_%s.json' % (pid, u.name, hid))
+        rp = os.path.join(REPLAYS, '%s_%s_%s.json' % (pid, u.name, hid))
         doc = {'property': pid, 'unit': u.name, 'functions': u.functions,
                'failed_obligation': f['name'], 'description': f.get('description'),
                'c_line': f.get('line'), 'variant': r.defines, 'mode': u.mode,
@@ -282,8 +283,12 @@ def run_property(pid, tier, seed, only_units=None, quiet=False):
         'wall_s': round(wall, 2),
         'violations': nviol,
     }
-    os.makedirs(os.path.join(VERIF, 'evidence'), exist_ok=True)
-    with open(os.path.join(VERIF, 'evidence', pid + '.json'), 'w') as fh:
+    # runs against a scratch copy (mutant testing) or of a unit subset never overwrite the evidence
+    evdir = os.path.join(VERIF, 'evidence')
+    if os.path.realpath(X.REPO) != '/repo' or only_units:
+        evdir = os.path.join(D.BUILD, 'evidence_scratch')
+    os.makedirs(evdir, exist_ok=True)
+    with open(os.path.join(evdir, pid + '.json'), 'w') as fh:
         json.dump(ev, fh, indent=1, default=str)
 
     for ln in printed:
